@@ -148,7 +148,8 @@ def opPart (suf : String) (np : Nat) (h : String) : String :=
   | _, _ => "bad-op"
 
 /-- generator support: `clean` | `hazard` (the model predicts no status: UB / out-of-bounds in the C) for the three
-    readers of a byte string: serial, serial + consumers (an accepted index ≥ nnode), parallel at one rank -/
+    readers of a byte string: serial, serial + consumers (an accepted index ≥ nnode: legacy reader only), parallel at
+    one rank -/
 def opClassify (ws : List String) : String :=
   match ws with
   | [suf, h] =>
@@ -266,6 +267,9 @@ def step (_ : Unit) (line : String) : Unit × String :=
     | "robust_import" :: ws => opRobust ws
     | "robust_translate" :: ws => opRobust ws
     | "robust_part" :: ws => opRobust ws
+    | ["ascii_import", e, h] =>
+      -- no model of the ASCII reader: the op carries the verdict of the generator's own parse, checked by the oracle
+      if (e == "ok" || e == "refused") && (bytesOfHex? h).isSome then e else "bad-op"
     | "gather" :: ws => opGather ws
     | _ => "bad-op"
   ((), r)
